@@ -33,6 +33,7 @@ type wop struct {
 	Lang  string `json:"lang,omitempty"`
 	Tpl   string `json:"template,omitempty"`
 	Yield bool   `json:"yield,omitempty"` // runtime.Gosched() before the operation
+	Hold  bool   `json:"hold,omitempty"`  // export: read the returned reader only after every goroutine has finished its operations
 }
 
 type workload struct {
@@ -84,6 +85,35 @@ func decodeEntry(e poolEntry) (subject, error) {
 // runOp executes one operation; shared[i] is the pre-decoded object of pool entry i (nil
 // subject when the entry does not decode).
 func runOp(w workload, shared []*subject, o wop) string {
+	r, pending := runOpHold(w, shared, o)
+	if pending != nil {
+		b, _ := io.ReadAll(pending)
+		return string(b)
+	}
+	return r
+}
+
+// runOpHold is runOp that hands back the unread reader of a held export.
+func runOpHold(w workload, shared []*subject, o wop) (string, io.Reader) {
+	if o.Kind == "export" && o.Hold && len(w.Pool) > 0 {
+		i := ((o.Idx % len(w.Pool)) + len(w.Pool)) % len(w.Pool)
+		if shared[i] == nil || shared[i].ver != 3 {
+			return "n/a", nil
+		}
+		ex, ok := shared[i].reportOf(o.Lang).(exporter)
+		if !ok {
+			return "n/a", nil
+		}
+		r, err := ex.ExportWithString(o.Tpl)
+		if err != nil {
+			return "error:" + errStr(err), nil
+		}
+		return "", r
+	}
+	return runOpPlain(w, shared, o), nil
+}
+
+func runOpPlain(w workload, shared []*subject, o wop) string {
 	if len(w.Pool) == 0 {
 		return ""
 	}
@@ -160,19 +190,34 @@ var checkC16 = register("C16/workload", func(w workload) string {
 	// ---- concurrent phase first: nothing but Decode has touched the shared objects, and
 	// (in the first workload of a process) nothing has warmed lazily initialised state
 	got := make([][]string, len(w.Goroutines))
-	var wg sync.WaitGroup
+	var wg, opsDone sync.WaitGroup
 	start := make(chan struct{})
 	for g, ops := range w.Goroutines {
 		got[g] = make([]string, len(ops))
 		wg.Add(1)
+		opsDone.Add(1)
 		go func(g int, ops []wop) {
 			defer wg.Done()
 			<-start
+			held := map[int]io.Reader{}
 			for k, o := range ops {
 				if o.Yield {
 					runtime.Gosched()
 				}
-				got[g][k] = guard(func() string { return runOp(w, shared, o) })
+				got[g][k] = guard(func() string {
+					r, pending := runOpHold(w, shared, o)
+					if pending != nil {
+						held[k] = pending
+					}
+					return r
+				})
+			}
+			// held export readers are consumed only after every goroutine has finished
+			opsDone.Done()
+			opsDone.Wait()
+			for k, r := range held {
+				b, _ := io.ReadAll(r)
+				got[g][k] = string(b)
 			}
 		}(g, ops)
 	}
@@ -193,24 +238,50 @@ var checkC16 = register("C16/workload", func(w workload) string {
 })
 
 // storm builds the cold-start workload run first in every process: 16 goroutines issue the
-// same operations at the same time before anything else has touched the library.
-func storm(decodeOnly bool) workload {
-	w := workload{Procs: 16, NoShared: decodeOnly, Pool: []poolEntry{
+// same operations at the same time before anything else has touched the library. kind
+// selects which part of the API meets its first use concurrently:
+//   0 decode storm (no object decoded beforehand; valid and invalid vectors of all levels)
+//   1 query storm on shared objects (every observer, v3 and v2)
+//   2 report storm (en / ja / fr) on shared objects
+//   3 export storm (several templates, valid and invalid) on shared objects
+func storm(kind int) workload {
+	w := workload{Procs: 16, NoShared: kind == 0, Pool: []poolEntry{
 		{Ver: 3, Level: 2, Input: "CVSS:3.1/AV:A/AC:H/PR:L/UI:N/S:C/C:L/I:H/A:L/E:P/RL:O/RC:U/CR:L/IR:M/AR:L/MAV:P/MAC:L/MPR:L/MUI:R/MS:C/MC:H/MI:H/MA:H"},
 		{Ver: 2, Level: 2, Input: "AV:N/AC:L/Au:N/C:P/I:P/A:C/E:F/RL:OF/RC:C/CDP:H/TD:H/CR:M/IR:M/AR:H"},
 		{Ver: 3, Level: 0, Input: "CVSS:3.0/AV:N/AC:L/PR:N/UI:N/S:U/C:H/I:H/A:H"},
+		{Ver: 3, Level: 1, Input: "CVSS:3.1/S:U/AV:N/AC:L/PR:H/UI:N/C:L/I:L/A:N/E:F/RL:X"},
+		{Ver: 2, Level: 1, Input: "AV:L/AC:H/Au:M/C:N/I:N/A:P/E:POC/RL:TF/RC:UR"},
+		{Ver: 2, Level: 0, Input: "AV:A/AC:M/Au:S/C:C/I:C/A:C"},
 		{Ver: 3, Level: 1, Input: "CVSS:3.1/AV:N/AC:L/PR:N/UI:N/S:U/C:H/I:H/A:H/E:X/RL:BAD"},
+		{Ver: 3, Level: 2, Input: "CVSS:3.2/AV:N"},
+		{Ver: 2, Level: 2, Input: "AV:N/AC:L/Au:N/C:P/I:P/A:C/RC:C/RL:U/E:H"},
+		{Ver: 2, Level: 0, Input: "AV:N/AC:L/Au:N/C:P/I:P/ZZ:1"},
 	}}
+	tpls := []string{"{{.Vector}} {{.SeverityValue}} ({{.BaseScore}})", "{{.AVName}}: {{.AVValue | html}}", "{{.Nope}}", "{{", "{{define \"a\"}}[{{.}}]{{end}}{{template \"a\" .Vector}}"}
 	for g := 0; g < 16; g++ {
 		var ops []wop
-		if decodeOnly {
-			for i := 0; i < 4; i++ {
+		switch kind {
+		case 0:
+			for i := range w.Pool {
 				ops = append(ops, wop{Kind: "decode", Idx: i})
 			}
-		} else {
-			for i := 0; i < 3; i++ {
-				ops = append(ops, wop{Kind: "query", Idx: i, Obs: "score"}, wop{Kind: "query", Idx: i, Obs: "severity"}, wop{Kind: "query", Idx: i, Obs: "encode"},
-					wop{Kind: "report", Idx: i, Lang: "ja"}, wop{Kind: "export", Idx: i, Lang: "en", Tpl: "{{.Vector}} {{.SeverityValue}} ({{.BaseScore}})"})
+		case 1:
+			for i := 0; i < 6; i++ {
+				for _, obs := range []string{"score", "severity", "geterror", "encode", "string"} {
+					ops = append(ops, wop{Kind: "query", Idx: i, Obs: obs})
+				}
+			}
+		case 2:
+			for _, lg := range []string{"ja", "en", "fr"} {
+				for _, i := range []int{0, 2, 3} {
+					ops = append(ops, wop{Kind: "report", Idx: i, Lang: lg})
+				}
+			}
+		default:
+			for _, tp := range tpls {
+				for _, i := range []int{0, 2, 3} {
+					ops = append(ops, wop{Kind: "export", Idx: i + g%2, Lang: "ja", Tpl: tp, Hold: true})
+				}
 			}
 		}
 		w.Goroutines = append(w.Goroutines, ops)
@@ -236,10 +307,11 @@ func TestC16(t *testing.T) {
 	// cold start: the first workload of this process (alternating kinds across shards)
 	{
 		nviol := 0
-		w := storm(shard%2 == 0)
-		c.rec.Case("cold-start-storm", fmt.Sprintf("storm|%v|%d", w.NoShared, shard), true, fmt.Sprintf("storm:decode-only=%v", w.NoShared))
-		if shard < 2 {
-			c.rec.Sample(map[string]any{"cold_start_storm": true, "decode_only": w.NoShared, "goroutines": 16, "pool": w.Pool})
+		kind := shard % 4
+		w := storm(kind)
+		c.rec.Case("cold-start-storm", fmt.Sprintf("storm|%d|%d", kind, shard), true, fmt.Sprintf("storm:kind=%d(%s)", kind, []string{"decode", "query", "report", "export"}[kind]))
+		if shard < 4 {
+			c.rec.Sample(map[string]any{"cold_start_storm": []string{"decode", "query", "report", "export"}[kind], "goroutines": 16, "first_goroutine_ops": w.Goroutines[0]})
 		}
 		evalEnum(c, "workload", w, checkC16, &nviol)
 	}
@@ -284,6 +356,7 @@ func TestC16(t *testing.T) {
 					o.Kind = "export"
 					o.Lang = rapid.SampledFrom([]string{"en", "ja"}).Draw(rt, "lang")
 					o.Tpl = rapid.SampledFrom(tpls).Draw(rt, "tpl")
+					o.Hold = rapid.Bool().Draw(rt, "hold")
 					exports++
 				}
 				ops[k] = o
